@@ -1,0 +1,27 @@
+//go:build verif
+
+// Package verifhook provides named yield points used by the out-of-tree
+// verification harness to force a particular interleaving inside one function.
+// With the `verif` build tag off (the default) Point is an empty function.
+package verifhook
+
+import "sync/atomic"
+
+type handlerBox struct{ fn func(name string) }
+
+var handler atomic.Value // handlerBox
+
+// Point calls the installed handler (if any) with the name of the yield point.
+// The handler may block the calling goroutine to force a schedule.
+func Point(name string) {
+	if v := handler.Load(); v != nil {
+		if fn := v.(handlerBox).fn; fn != nil {
+			fn(name)
+		}
+	}
+}
+
+// Set installs the handler invoked by every Point call; nil removes it.
+func Set(fn func(name string)) {
+	handler.Store(handlerBox{fn})
+}
